@@ -357,7 +357,7 @@ func genStruct(rt *rapid.T, o TypeOpts, depth int) TypeDesc {
 			if o.avoid("string-on-string") && strings.Contains(tg, ",string") && (f.T.Type().Kind() == reflect.String || (f.T.K == "ptr" && f.T.Elem.Type().Kind() == reflect.String)) {
 				tg = strings.ReplaceAll(tg, ",string", "")
 			}
-			if o.avoid("string-on-number") && strings.Contains(tg, ",string") && f.T.K == "number" {
+			if o.avoid("string-on-number") && strings.Contains(tg, ",string") && (f.T.K == "number" || (f.T.K == "ptr" && f.T.Elem.K == "number")) {
 				tg = strings.ReplaceAll(tg, ",string", "")
 			}
 			if !(o.avoid("string-on-marshaler") && strings.Contains(tg, ",string") && HasMarshalMethods(f.T.Type())) {
